@@ -120,10 +120,26 @@ def job_step(kind, n, op):
 
 
 def classify(msg):
-    for k in ('label', 'identity', 'accepted', 'rejected', 'raised', 'unchanged', 'result'):
+    for k in ('label', 'identity', 'accepted', 'rejected', 'raised', 'unchanged', 'result', 'obs_range', 'tchans', 'slew_times'):
         if k in msg:
             return k
     return 'other'
+
+
+def aggregates_problem(cad):
+    """total time samples, observing range and slew times agree with the member frames (None / empty for no frames)"""
+    fr = cad.frames
+    if not fr:
+        return None if (cad.obs_range is None and (cad.tchans in (0, None))) else f"aggregates of an empty cadence: obs_range={cad.obs_range!r} tchans={cad.tchans!r}"
+    want_range = fr[-1].t_start + fr[-1].tchans * fr[-1].dt - fr[0].t_start
+    if cad.obs_range is None or abs(cad.obs_range - want_range) > 1e-9:
+        return f"obs_range={cad.obs_range!r} but the member frames span {want_range!r} (first frame starts at {fr[0].t_start!r})"
+    if cad.tchans != sum(f.tchans for f in fr):
+        return f"tchans={cad.tchans!r} but the member frames have {sum(f.tchans for f in fr)}"
+    want_slew = [b.t_start - (a.t_start + a.tchans * a.dt) for a, b in zip(fr, fr[1:])]
+    if len(cad.slew_times) != len(want_slew) or any(abs(x - y) > 1e-9 for x, y in zip(cad.slew_times, want_slew)):
+        return f"slew_times={list(cad.slew_times)!r} but the member frames give {want_slew!r}"
+    return None
 
 
 def judge(kind, op, o, i, ok):
@@ -176,6 +192,9 @@ def judge(kind, op, o, i, ok):
         return f"{op}({i}): identity/order differs from the list model: positions {[ok.index(f) if f in ok else '?' for f in cad.frames]}"
     if op in ('pop', 'pop_last', 'getitem') and res is not want:
         return f"{op}({i}): result is not the list's element"
+    agg = aggregates_problem(cad)
+    if agg:
+        return f"{op}({i}): {agg}"
     if kind == 'ordered' and adds:
         news = [v] + ([ok[3]] if op == 'extend' and o['ob'] != 3 and o['ob'] < 4 else [])
         for f in news:
